@@ -43,6 +43,10 @@ func main() {
 		runC16(*tier, *seed, out)
 	case "C04", "C05":
 		runQueueCheck(id, *tier, *seed, out)
+	case "C04stress":
+		runC04stress(*tier, *seed, out)
+	case "C18":
+		runC18(*tier, *seed, out)
 	case "C20":
 		runC20(*tier, *seed, out)
 	case "C06":
